@@ -3,6 +3,7 @@ import time
 import traceback
 import hashlib
 import json
+from fractions import Fraction
 
 import z3
 
@@ -52,6 +53,27 @@ def _exc_sig(e):
     tb = traceback.extract_tb(e.__traceback__)
     frames = [f"{f.filename.rsplit('/', 1)[-1]}:{f.name}:{f.lineno}" for f in tb if "/repo/" in f.filename or "<" in f.filename]
     return {"type": type(e).__name__, "msg": str(e)[:200], "where": frames[-3:]}
+
+
+def _signed_zero_variant(model, variant):
+    """the model with every other zero-valued real input replaced by -0.0 (variant 0: even positions, 1: odd)"""
+    names = sorted(k for k, v in model.items() if isinstance(v, (int, float, Fraction)) and not isinstance(v, bool) and v == 0
+                   and "!i" not in k and not k.startswith(("rint!", "perm!", "choose")))
+    names = [k for k in names if not _is_int_var(k, model)]
+    if not names:
+        return None
+    m2 = dict(model)
+    changed = False
+    for i, k in enumerate(names):
+        if i % 2 == variant:
+            m2[k] = -0.0
+            changed = True
+    return m2 if changed else None
+
+
+def _is_int_var(name, model):
+    v = model[name]
+    return isinstance(v, int) and not isinstance(v, bool)
 
 
 def concrete_run(case, model):
@@ -453,6 +475,30 @@ def explore(case, roots=None, max_paths=10**9, deadline=None, timeout_ms=20000, 
                     for k, v in out.observe.items():
                         pass
                     res["xval_ok"] += 1
+                    # signed-zero twins: the real-arithmetic model has one zero, floats have two.  Replay the same model
+                    # with every other zero-valued real input negated (two complementary patterns); the obligations are
+                    # numeric, so a twin that falsifies one is a counterexample of the real code found by replay
+                    for variant in (0, 1):
+                        m2 = _signed_zero_variant(model, variant)
+                        if m2 is None:
+                            continue
+                        rep2 = concrete_run(case, m2)
+                        res["signed_zero_replays"] = res.get("signed_zero_replays", 0) + 1
+                        bad2 = rep2["status"] == "exception" or (rep2["status"] == "ok" and not all(rep2["verdicts"].values()))
+                        if not bad2:
+                            continue
+                        if rep2["status"] == "exception":
+                            lab2, info2 = "no_unexpected_exception", rep2["exc"]
+                        else:
+                            lab2, info2 = [l for l, t in rep2["verdicts"].items() if not t][0], None
+                        if labels is not None and lab2 not in labels and lab2 != "no_unexpected_exception":
+                            continue
+                        L2 = res["labels"].setdefault(lab2, dict(reached=0, discharged=0, violated=0))
+                        L2["reached"] += 1
+                        L2["violated"] += 1
+                        res["violations"].append(dict(label=lab2, model=model_to_json(m2), prefix=eng.trace, tag=rep2.get("tag", tag), replay=rep2,
+                                                      exc=info2, reproduced=True, found_by="signed-zero replay"))
+                        break
                     if len(res["samples"]) < 3:
                         res["samples"].append(dict(inputs={k: v for k, v in list(model_to_json(model).items())[:24]}, tag=tag,
                                                    obligations=sorted({l for l, _, _ in obligations}),
